@@ -305,7 +305,7 @@ func cborencGen(args []string) error {
 				for i := 0; i < m; i++ {
 					k := genNode(r, 1)
 					if r.Intn(3) == 0 { // keys of different length classes
-						k = &cnode{mt: 3, data: bytes.Repeat([]byte{byte('a' + r.Intn(3))}, []int{1, 2, 23, 24, 25}[r.Intn(5)])}
+						k = &cnode{mt: 2 + r.Intn(2), data: bytes.Repeat([]byte{byte('a' + r.Intn(3))}, []int{1, 2, 23, 24, 25, 255, 256, 509, 510, 511, 600, 5000}[r.Intn(12)])}
 					}
 					c.Es = append(c.Es, kv{ints(enc(k)), ints(enc(genNode(r, 2)))})
 				}
@@ -320,7 +320,7 @@ func cborencGen(args []string) error {
 						c.Es = append(c.Es, kv{ints(enc(&cnode{mt: kmt, data: kb})), ints(enc(genNode(r, 1)))})
 					}
 				}
-				if m > 0 && r.Intn(5) == 0 { // equal keys
+				if m > 0 && r.Intn(3) == 0 { // equal keys
 					c.Es = append(c.Es, kv{c.Es[r.Intn(m)].K, ints(enc(genNode(r, 1)))})
 				}
 				r.Shuffle(len(c.Es), func(i, j int) { c.Es[i], c.Es[j] = c.Es[j], c.Es[i] })
